@@ -679,6 +679,11 @@ func (vc *FuncVC) argTypeMods(c *ssa.CallCommon, mods map[string]bool) {
 	}
 	var walk func(t types.Type, depth int)
 	walk = func(t types.Type, depth int) {
+		if types.Identical(t, types.Universe.Lookup("error").Type()) {
+			// an error value handed to a library function: at most its Error method is called, which is assumed
+			// not to write program state (listed with the other assumptions about calls without contract)
+			return
+		}
 		switch u := t.Underlying().(type) {
 		case *types.Basic:
 		case *types.Pointer:
